@@ -155,6 +155,8 @@ RAW_CASES = [
 
 def run_case(chk, rng, passive, state, seq, cuts):
     cfg = {'seg_init': 10}
+    if rng.random() < 0.3:
+        cfg['modulate'] = rng.choice([0.001, 1.0])     # adaptive segment size: ACK handling has more to do
     adv = Adversary(rng, passive, cfg)
     x, sim = adv.x, adv.sim
     if not adv.to_state(state):
